@@ -21,7 +21,7 @@
 (* The uniform grid prior is a factor G^-(K+1) the harness applies.        *)
 (* Everything is exact integer arithmetic (TLC aborts loudly on overflow). *)
 (***************************************************************************)
-EXTENDS Forests
+EXTENDS Forests, SequencesExt
 
 \* ---------------------------------------------------------------- helpers (G = grid size; vectors are functions on 0..G-1)
 Idx(G) == 0..(G - 1)
@@ -41,17 +41,28 @@ RDef(F, L, i, G, c) == LET T == SubOf(F, c) IN [k \in Idx(G) |->
    SumOver({a \in [T -> Idx(G)] : Feasible(T, a) /\ a[c] = k}, LAMBDA a : Weight(T, L, i, a))]
 
 \* ---------------------------------------------------------------- recursion as implemented
-Conv(x, y, G) == [k \in Idx(G) |-> SumOver(0..k, LAMBDA j : x[j] * y[k - j])]
-RunSum(d, G) == [k \in Idx(G) |-> SumOver(0..k, LAMBDA j : d[j])]
-One(G) == [k \in Idx(G) |-> IF k = 0 THEN 1 ELSE 0]
-RECURSIVE RRec(_, _, _, _, _)
-DRec(F, L, i, G, K) == LET RECURSIVE Go(_, _)
-                           Go(S, acc) == IF S = {} THEN acc
-                                         ELSE LET u == CHOOSE u \in S : TRUE IN Go(S \ {u}, Conv(RRec(F, L, i, G, u), acc, G))
-                       IN Go(K, One(G))
-RRec(F, L, i, G, c) == LET s == RunSum(DRec(F, L, i, G, KidsOf(F, c)), G)
-                       IN [k \in Idx(G) |-> NodeL(L, Own(F, c), i, k) * s[k]]
-ZRec(F, L, i, G) == RunSum(DRec(F, L, i, G, Roots(F)), G)
+\* Vectors are strict tuples of length G (entry k+1 = grid index k).  TLC function constructors are lazy closures
+\* that re-evaluate their body at every application, and LET / operator arguments are evaluated by name; appending
+\* the empty tuple forces a tuple value and singleton-set binders force a single evaluation.  With that a
+\* 1000-point grid convolves in about a second.
+Strict(f) == f \o <<>>
+ConvT(x, y, G) == CHOOSE r \in {Strict([k \in 1..G |-> FoldLeft(LAMBDA acc, j : acc + xv[j] * yv[k + 1 - j], 0, [j \in 1..k |-> j])])
+                                 : xv \in {x}, yv \in {y}} : TRUE
+RunT(d) == FoldLeft(LAMBDA acc, v : Append(acc, (IF acc = <<>> THEN 0 ELSE acc[Len(acc)]) + v), <<>>, d)
+OneT(G) == Strict([k \in 1..G |-> IF k = 1 THEN 1 ELSE 0])
+NodeVec(L, own, i, G) == Strict([k \in 1..G |-> ProdOver(own, LAMBDA d : L[d + 1][i][k])])
+RECURSIVE RRecT(_, _, _, _, _)
+DRecT(F, L, i, G, K) == LET RECURSIVE Go(_, _)
+                            Go(S, acc) == IF S = {} THEN acc
+                                          ELSE LET u == CHOOSE u \in S : TRUE IN Go(S \ {u}, ConvT(RRecT(F, L, i, G, u), acc, G))
+                        IN Go(K, OneT(G))
+RRecT(F, L, i, G, c) == CHOOSE r \in {Strict([k \in 1..G |-> nv[k] * s[k]]) :
+                                        s \in {RunT(DRecT(F, L, i, G, KidsOf(F, c)))}, nv \in {NodeVec(L, Own(F, c), i, G)}} : TRUE
+ZRecT(F, L, i, G) == RunT(DRecT(F, L, i, G, Roots(F)))
+\* the same as functions on 0..G-1 (for comparison with the definition)
+AsFun(t, G) == [k \in Idx(G) |-> t[k + 1]]
+RRec(F, L, i, G, c) == AsFun(RRecT(F, L, i, G, c), G)
+ZRec(F, L, i, G) == AsFun(ZRecT(F, L, i, G), G)
 
 \* ---------------------------------------------------------------- max-product (integer log-likelihood tables LL)
 NodeLL(LL, own, i, k) == SumOver(own, LAMBDA d : LL[d + 1][i][k + 1])
